@@ -521,6 +521,27 @@ class _AMot(_Mot):
 _AMOT = _AMot()
 
 
+class _FMot(_Mot):
+    """a motor whose set() takes its outcome from the decision list: returns a status (the response owed to the plan) or raises"""
+    name = "fmot"
+
+    def set(self, *a, **k):
+        ctl = _CTL["ctl"]
+        d = ctl.next_decision(["device set outcome"])
+        m = getattr(ctl, "cur_msg", None)
+        if d is not None and d[1] == "raise":
+            e = ValueError("device refuses the set point")
+            ctl.errors.setdefault(id(m), []).append(e)
+            raise e
+        LEDGER.append(("fmot", "set"))
+        st = _Status()
+        ctl.results.setdefault(id(m), []).append(st)
+        return st
+
+
+_FMOT = _FMot()
+
+
 LEDGER = []      # (device, call) in call order, for the C06 clauses
 
 
@@ -599,7 +620,7 @@ def _callback(name, doc):
 _DEV = _Dev()
 
 MESSAGES = {
-    "set": lambda: Msg("set", _MOT, 1), "set_async": lambda: Msg("set", _AMOT, 1),
+    "set": lambda: Msg("set", _MOT, 1), "set_async": lambda: Msg("set", _AMOT, 1), "set_fallible": lambda: Msg("set", _FMOT, 1),
     "kickoff": lambda: Msg("kickoff", _FLY), "collect": lambda: Msg("collect", _FLY),
     "monitor": lambda: Msg("monitor", _SIG), "unmonitor": lambda: Msg("unmonitor", _SIG),
     "open_run_b": lambda: Msg("open_run", run="b"), "close_run_b": lambda: Msg("close_run", run="b"),
@@ -756,7 +777,7 @@ def _violations(obligation, res):
         for x in tr:
             if x[0] == "send":
                 _, choice, own, is_none, _err = x
-                if choice in ("custom", "custom_async") and not own:
+                if choice in ("custom", "custom_async", "set_fallible") and not own:
                     bad.append(f"the plan received a value that no handler produced for its {choice!r} message (None: {is_none})")
                 if choice in ("checkpoint", "clear_checkpoint", "null", "pause", "pause_defer", "sleep", "rewindable_off", "rewindable_on") and not is_none \
                         and not choice.startswith("rewindable"):
